@@ -1046,6 +1046,13 @@ Section Main.
     - apply in_rev in He. exact He.
   Qed.
 
+  Lemma sprefs_rev_eq (l : nsstack) : sprefs (rev l) = rev (sprefs l).
+  Proof.
+    induction l as [|[[q|] u] l IHl]; [reflexivity| |]; cbn [rev]; rewrite sprefs_app, IHl.
+    - change (sprefs ((Some q, u) :: l)) with (q :: sprefs l). reflexivity.
+    - change (sprefs ((None, u) :: l)) with (sprefs l). apply app_nil_r.
+  Qed.
+
   Lemma NoDup_app_l {A} (a b : list A) : NoDup (a ++ b) -> NoDup a.
   Proof.
     induction a as [|x a IHa]; intro H; [constructor|]. cbn [app] in H. inversion H as [|? ? Hn Hr]; subst.
@@ -1067,10 +1074,7 @@ Section Main.
     split; [|split; [|split; [exact A6|split]]].
     - (* no prefix twice in the tag *)
       rewrite Hsp in A2. apply NoDup_app_l in A2.
-      assert (E : sprefs (rev (decls_of attrs)) = rev (sprefs (decls_of attrs))).
-      { induction (decls_of attrs) as [|e l IHl]; [reflexivity|]. cbn [rev]. rewrite sprefs_app, IHl.
-        unfold sprefs at 2 3. cbn [flat_map]. rewrite app_nil_r. destruct (fst e); reflexivity. }
-      rewrite E in A2. apply NoDup_rev in A2. rewrite rev_involutive in A2. exact A2.
+      rewrite sprefs_rev_eq in A2. apply NoDup_rev in A2. rewrite rev_involutive in A2. exact A2.
     - (* no prefix of the scope is defined again *)
       intros q u Hin Hq. rewrite Hsp in A2.
       assert (Hd : In q (sprefs (rev (decls_of attrs)))).
